@@ -5,6 +5,7 @@
 #include <assert.h>
 #include <ctype.h>
 #include <errno.h>
+#include <limits.h>
 #include <pthread.h>
 #include <signal.h>
 #include <stdio.h>
@@ -418,7 +419,13 @@ string Subprocess::communicate(
       }
     }
     if (events.count(this->stdin_write_fd)) {
+      // POLLOUT only guarantees that PIPE_BUF bytes can be written without
+      // blocking. Writing more than that could block forever if the child is
+      // itself blocked writing output that we are not reading meanwhile.
       size_t bytes_remaining = stdin_size - stdin_offset;
+      if (bytes_remaining > PIPE_BUF) {
+        bytes_remaining = PIPE_BUF;
+      }
       ssize_t bytes_written = write(
           this->stdin_write_fd,
           reinterpret_cast<const uint8_t*>(stdin_data) + stdin_offset,
